@@ -2,7 +2,8 @@
 
 Real code: `amqpstorm.UriConnection(uri, lazy=True).parameters` (no socket is touched).
 Monitor (independent oracle, shares nothing with the Lean model or urllib): the generator keeps the
-components it rendered the URI from (own percent-encoder over UTF-8 bytes); the parameters must be
+components it rendered the URI from (own percent-encoder over UTF-8 bytes: canonical, or with
+over-escaping, mixed-case hex and RFC 3986 sub-delims left raw); the parameters must be
 those components (credentials/vhost as generated, host lower-cased without brackets, port as given,
 amqps => ssl, heartbeat/timeout exact `int`s) or the documented defaults for omitted ones.
 Correspondence (SEQ): every URI (well-formed, every omission subset, malformed stream) is also sent
@@ -72,7 +73,13 @@ def rand_char(rng):
     return chr(rng.randint(0x10000, 0x10FFFF))
 
 
+WORDS = ['amqp', 'amqps', 'http', 'https', 'amqp://', 'xamqpsx', 'guest', 'localhost', '5672', 'heartbeat=5', '%2F', '%', '+', ';', 'a;b',
+         'a+b', 'timeout', '?', '#', '@', ':', '[::1]', '//']
+
+
 def rand_text(rng, lo=1, hi=10):
+    if lo > 0 and rng.random() < 0.08:
+        return rng.choice(WORDS)          # text that collides with the URI's own syntax and defaults
     return ''.join(rand_char(rng) for _ in range(rng.randint(lo, hi)))
 
 
@@ -316,14 +323,14 @@ def check(rep):
         cases.append((uri, None, 'literal'))
     # full omission lattice x schemes
     names = ['user', 'pass', 'host', 'port', 'vhost', 'opts']
-    for rounds in range(2 if not thorough else 6):
+    for rounds in range(2 if not thorough else 10):
         for bits in itertools.product([False, True], repeat=6):
             for tls in (False, True):
                 c = rand_components(rng, dict(zip(names, bits)))
                 c['tls'] = tls
                 cases.append((render(c), c, 'lattice'))
                 cases.append((render(c, rng), c, 'lattice-variant'))
-    n = 6000 if not thorough else 60000
+    n = 6000 if not thorough else 200000
     for i in range(n):
         c = rand_components(rng)
         if i % 3 == 0:
@@ -334,7 +341,7 @@ def check(rep):
             extra = rng.sample(['poller=select', 'x=1', 'y', 'heartbeat=', 'foo=%26', 'ssl_version=protocol_tlsv1_2' if c['tls'] else 'a=b'],
                                rng.randint(1, 2))
             cases.append((render(c, rng, extra), c, 'extra-options'))
-    for i in range(5000 if not thorough else 40000):
+    for i in range(5000 if not thorough else 100000):
         c = rand_components(rng)
         uri, kind = mutate(rng, render(c, rng if rng.random() < 0.5 else None))
         if rng.random() < 0.25:
@@ -381,7 +388,7 @@ def check(rep):
             expect.append(cps(uri))
             meta.append({'render': uri, 'kind': label})
     # library fragments on their own: unquote / quote / int
-    for i in range(3000 if not thorough else 20000):
+    for i in range(3000 if not thorough else 50000):
         t = rand_text(rng, 0, 8)
         k = i % 4
         if k == 0:
